@@ -1,6 +1,14 @@
 """Per-property configuration of bin/run_check.py."""
 
 PROPS = {
+    "C01": {
+        "lean_modules": ["HermesProps.C01"],
+        "level": "proof",
+        "assumptions": [
+            "theorems are exact-arithmetic (ℚ) statements about the model of Water; IEEE round-off is measured by the residual search (1e-9 relative), not proved",
+            "the model is tied to hermes.Water by bit-exact differential correspondence on generated states",
+        ],
+    },
     "C12": {
         "lean_modules": ["HermesProps.C12"],
         "level": "proof",
